@@ -46,6 +46,7 @@ func genTail(rt *rapid.T) tailCase {
 	c.Before = rapid.SliceOfNDistinct(rapid.Int64Range(305_000, 4*86400_000), 1, 3, rapid.ID[int64]).Draw(rt, "before")
 	c.After = rapid.SliceOfNDistinct(rapid.Int64Range(3600_000, 4*86400_000), 0, 2, rapid.ID[int64]).Draw(rt, "after")
 	c.Twin = rapid.SliceOfNDistinct(rapid.Int64Range(5_000, 180_000), 0, 2, rapid.ID[int64]).Draw(rt, "twin")
+	c.Ver = genVer(rt)
 	return c
 }
 
